@@ -369,8 +369,8 @@ func (env *Env) evalCall(n *ECall) TV {
 		if t.Sort == SSlice {
 			t = SliceArr(t)
 		}
-		e.declareFun("perexec", []Sort{SInt}, SBool)
-		return TV{T: App(SBool, "perexec", t)}
+		// a location is per-execution if it carries the ghost label or was allocated since the frame started
+		return TV{T: Or(App(SBool, "perexec", t), Ge(Birth(t), env.e.now0))}
 	case "has":
 		m := arg(0)
 		k := arg(1)
